@@ -25,6 +25,10 @@ def run(ctx):
     batchkey(ctx)
     batchall(ctx)
     known(ctx)
+    # an empty chunk covering part of a version must not book the whole version as known: re-offered sibling chunks would be
+    # suppressed as already-seen for good (added after C10-c; same structural fact as C03.cleared)
+    from . import C03
+    C03.cleared(ctx, rid="C10.cleared")
 
 
 def _derives_from_call(b, place, at, target_bbs, hops=6):
